@@ -227,6 +227,35 @@ var floatRoundingAllowed = map[string]string{
 	"cty/gocty.fromCtyNumberFloat": "decoding into a Go float rounds by design; infinities and float32 overflow are checked by C18.range-test-before-set",
 }
 
+// isFailureReturnOperand: u is directly a result of a return statement that also
+// returns the constant false or a non-nil error expression.
+func isFailureReturnOperand(c *Ctx, info *types.Info, u *ast.Ident) bool {
+	ret, ok := c.Parent(u).(*ast.ReturnStmt)
+	if !ok || len(ret.Results) < 2 {
+		return false
+	}
+	for _, r := range ret.Results {
+		r = ast.Unparen(r)
+		if r == ast.Expr(u) {
+			continue
+		}
+		if tv, ok := info.Types[r]; ok {
+			if tv.Value != nil && tv.Value.Kind() == constant.Bool && !constant.BoolVal(tv.Value) {
+				return true
+			}
+			if !tv.IsNil() && tv.Type != nil && tv.Type.String() == "error" {
+				if id, isID := r.(*ast.Ident); isID && id.Name == "nil" {
+					continue
+				}
+				if _, isCall := r.(*ast.CallExpr); isCall {
+					return true
+				}
+			}
+		}
+	}
+	return false
+}
+
 func runNarrowingExact(rr *RuleRun) {
 	c := rr.Ctx
 	for _, pkg := range []string{"cty", "cty/msgpack", "cty/gocty", "cty/json", "cty/function/stdlib", "cty/convert"} {
@@ -359,6 +388,9 @@ func runNarrowingExact(rr *RuleRun) {
 						continue
 					}
 					if !fs.has("exact", objKey(acc)) {
+						if isFailureReturnOperand(c, info, u) {
+							continue // handed back next to a false flag / an error: the caller is told not to use it
+						}
 						badUse = u
 						break
 					}
@@ -821,7 +853,6 @@ func runUnknownNullFirst(rr *RuleRun) {
 	}
 }
 
-
 // evalConst evaluates an integer expression built from constants, the names in env, unary minus,
 // + - * << >> and integer conversions. nil when it cannot be decided.
 func evalConst(info *types.Info, e ast.Expr, env map[string]constant.Value) constant.Value {
@@ -863,7 +894,6 @@ func evalConst(info *types.Info, e ast.Expr, env map[string]constant.Value) cons
 	}
 	return nil
 }
-
 
 // checkWidthTableElsewhere handles the two other shapes of the per-width bounds: a same-package helper that
 // switches on its bit-width parameter and returns (min, max) / max, and a package-level map literal keyed by
